@@ -76,6 +76,9 @@ impl BBSplusPublicKey {
     fn from_bytes_uncompressed(bytes: &[u8; G2Affine::UNCOMPRESSED_BYTES]) -> Result<Self, Error> {
         let g2 =
             parse_g2_projective_uncompressed(bytes).map_err(|_| Error::KeyDeserializationError)?;
+        if g2 == G2Projective::IDENTITY {
+            return Err(Error::KeyDeserializationError);
+        }
         Ok(Self(g2))
     }
 
@@ -100,11 +103,15 @@ impl BBSplusPublicKey {
     ///
     /// * `Result<Self, Error>` - A result containing the `BBSplusPublicKey` or an error.
     pub fn from_bytes(bytes: &[u8]) -> Result<Self, Error> {
-        if bytes.len() < G2Affine::COMPRESSED_BYTES {
+        if bytes.len() != G2Affine::COMPRESSED_BYTES {
             return Err(Error::KeyDeserializationError);
         }
         let g2 = parse_g2_projective_compressed(&bytes[0..G2Affine::COMPRESSED_BYTES])
             .map_err(|_| Error::KeyDeserializationError)?;
+        // draft-08 octets_to_pubkey: W must not be Identity_G2
+        if g2 == G2Projective::IDENTITY {
+            return Err(Error::KeyDeserializationError);
+        }
         Ok(Self(g2))
     }
 }
